@@ -65,12 +65,16 @@ Definition lc_obs (c : lcons) (L : list (res Z)) : option (list Z) :=
    (list length)^(stages) evaluations of the stop predicate) *)
 Definition lazy_pp (nw : N) (p : sp) (l : list (res Z)) : par_params :=
   mkPP measure_items (psw p) (N.to_nat nw) (gen_sched (3 * length l) nw (pseed p)) [].
-Definition lstage_sp (s : lstage) : sp := match s with LMap p | LAccept p | LNumber p => p end.
+Definition lstage_pp (nw : N) (s : lstage) (items : list (res Z)) : par_params :=
+  match s with
+  | LMap p | LAccept p => lazy_pp nw p items
+  | LScan _ _ => mkPP 0 false 1 [] []       (* runs on the goroutine that calls its yield: no schedule inputs *)
+  end.
 Fixpoint lazy_model (nw : N) (cstop : list (res Z) -> bool) (stages : list lstage) (items : list (res Z)) : list (res Z) :=
   match stages with
   | [] => items
-  | [s] => fst (lstage_fin (mkLP (lazy_pp nw (lstage_sp s) items) cstop) s items)
-  | s :: r => lazy_model nw cstop r (fst (lstage_fin (mkLP (lazy_pp nw (lstage_sp s) items) (fun _ => false)) s items))
+  | [s] => fst (lstage_fin (mkLP (lstage_pp nw s items) cstop) s items)
+  | s :: r => lazy_model nw cstop r (fst (lstage_fin (mkLP (lstage_pp nw s items) (fun _ => false)) s items))
   end.
 
 (* id, (workers, n, stages, consumer), observation (None = evaluation failed) *)
